@@ -160,6 +160,8 @@ def hafnian_with_reduction(matrix_orig, occupation_numbers):
         scale_factor = (
             np.sum(np.abs(matrix_reduced)) / matrix_reduced.shape[0] ** 2 / np.sqrt(2.0)
         )
+        if scale_factor == 0.0:
+            scale_factor = 1.0
         matrix = matrix_reduced / scale_factor
 
     dim_over_2 = np.sum(all_edges)
@@ -252,6 +254,8 @@ def hafnian_with_reduction_batch(matrix_orig, occupation_numbers, cutoff):
         scale_factor = (
             np.sum(np.abs(matrix_reduced)) / matrix_reduced.shape[0] ** 2 / np.sqrt(2.0)
         )
+        if scale_factor == 0.0:
+            scale_factor = 1.0
         matrix = matrix_reduced / scale_factor
 
     dim_over_2 = np.sum(all_edges)
